@@ -169,8 +169,10 @@ class Builder():
             try:
                 expanded_source = os.path.expanduser(source)
                 with open(expanded_source, 'r') as f:
-                    self._current_file = expanded_source
-                    source = f.read()
+                    content = f.read()
+                # only now: if reading fails the builder must not keep pointing at that file
+                self._current_file = expanded_source
+                source = content
             except (FileNotFoundError, OSError) as e:
                 #OSError(22) is "Invalid argument"
                 #OSError(36) is "File name too long"
